@@ -277,7 +277,7 @@ func classString(idem, cached bool) string {
 func (rr *reqRun) prepareAll(c *cqlclient.Client) error {
 	rr.ids = map[string][]byte{}
 	for i, stmt := range []string{prepIdem, prepNonIdem, prepSelect} {
-		r, err := c.Roundtrip(frame.NewFrame(primitive.ProtocolVersion4, int16(100+i), &message.Prepare{Query: stmt}), "", "setup-prepare", 10*time.Second)
+		r, err := c.Roundtrip(frame.NewFrame(c.Version, int16(100+i), &message.Prepare{Query: stmt}), "", "setup-prepare", 10*time.Second)
 		if err != nil {
 			return err
 		}
@@ -304,14 +304,16 @@ type reqStats struct {
 
 // runRound executes the scenarios on a fresh proxy + cluster and appends the trace to `out`.
 type roundOpts struct {
-	compression string
-	restarts    int
-	addNode     bool
-	override    bool // configure a write-consistency override that applies to every write of the workload
-	stallMs     int  // hold back the answer to one heartbeat per data connection for this long
-	holdMs      int  // hold back every scripted answer for this long (requests pile up on the connection)
-	noDrops     bool // no scripted connection drops at all (also not for re-PREPAREs)
-	idleClose   bool // short heartbeat interval / idle timeout: connections of a silent node are closed by the proxy
+	compression     string
+	restarts        int
+	addNode         bool
+	override        bool   // configure a write-consistency override that applies to every write of the workload
+	stallMs         int    // hold back the answer to one heartbeat per data connection for this long
+	holdMs          int    // hold back every scripted answer for this long (requests pile up on the connection)
+	noDrops         bool   // no scripted connection drops at all (also not for re-PREPAREs)
+	postCompression string // ... or prepares them again after the workload's setup client did
+	preCompression  string // a client with this compression prepares the statements before the workload's own clients do
+	idleClose       bool   // short heartbeat interval / idle timeout: connections of a silent node are closed by the proxy
 }
 
 func runRound(scs []*reqScenario, nodes, numConns, nclients, workers int, out string, st *reqStats, dropRate float64, salt int64, maxDelay int, ro roundOpts) error {
@@ -367,8 +369,35 @@ func runRound(scs []*reqScenario, nodes, numConns, nclients, workers int, out st
 		return err
 	}
 	setup.Quiet = false
+	if ro.preCompression != "" {
+		// another client, on a session with other connection settings, has prepared the same statements before
+		pre, err := e.StartedClient(primitive.ProtocolVersion4, ro.preCompression)
+		if err != nil {
+			return err
+		}
+		if err := rr.prepareAll(pre); err != nil {
+			return err
+		}
+		pre.Close()
+	}
 	if err := rr.prepareAll(setup); err != nil {
 		return err
+	}
+	if ro.postCompression != "" {
+		// ... or prepares them again afterwards: the proxy's prepared cache now holds that client's frames
+		// ("v3" / "v3+lz4": that client speaks protocol version 3)
+		pv, pc := primitive.ProtocolVersion4, ro.postCompression
+		if strings.HasPrefix(pc, "v3") {
+			pv, pc = primitive.ProtocolVersion3, strings.TrimPrefix(strings.TrimPrefix(pc, "v3"), "+")
+		}
+		post, err := e.StartedClient(pv, pc)
+		if err != nil {
+			return err
+		}
+		if err := rr.prepareAll(post); err != nil {
+			return err
+		}
+		post.Close()
 	}
 	var clients []*cqlclient.Client
 	for i := 0; i < nclients; i++ {
@@ -546,6 +575,8 @@ func init() {
 		stallMs := fs.Int("stall", 0, "answer one heartbeat per data connection this many ms late")
 		holdMs := fs.Int("hold", 0, "hold back every scripted answer this many ms")
 		noDrops := fs.Bool("nodrops", false, "random scenarios never drop connections")
+		preCompression := fs.String("precompression", "", "a client with this compression prepares the statements first")
+		postCompression := fs.String("postcompression", "", "a client with this compression prepares the statements again after the set-up")
 		idleClose := fs.Bool("idleclose", false, "random scenarios include nodes falling silent until the proxy closes their connections (idle timeout 400 ms)")
 		override := fs.Bool("override", false, "configure an unsupported-write-consistency override matching the workload's writes")
 		_ = fs.Parse(args)
@@ -602,7 +633,7 @@ func init() {
 				j = len(scs)
 			}
 			if err := runRound(scs[i:j], *nodes, *numConns, *nclients, *workers, *out, st, *dropRate, int64(k), *maxDelay,
-				roundOpts{compression: *compression, restarts: *restarts, addNode: *addNode, stallMs: *stallMs, holdMs: *holdMs, override: *override, noDrops: *noDrops, idleClose: *idleClose}); err != nil {
+				roundOpts{compression: *compression, restarts: *restarts, addNode: *addNode, stallMs: *stallMs, holdMs: *holdMs, override: *override, noDrops: *noDrops, idleClose: *idleClose, preCompression: *preCompression, postCompression: *postCompression}); err != nil {
 				return err
 			}
 		}
